@@ -268,6 +268,146 @@ def is_cyclic(obj):
     return go(obj)
 
 
+# ------------------------------------------------------------------ histories: a print that fails part-way, then more prints
+
+class Flaky:
+    """an element that cannot be printed while armed"""
+
+    def __init__(self):
+        self.armed = True
+
+    def __repr__(self):
+        if self.armed:
+            raise ValueError("not printable right now")
+        return "None"
+
+
+def gen_history(rng):
+    """a nested value of documented container types with a Flaky element somewhere inside; returns
+    (root, path of containers from the root down to the one holding the element, remove())"""
+    kinds = ["list", "dict", "deque", "OrderedDict", "defaultdict", "ChainMap", "tuple", "Counter"]
+    depth = rng.randrange(1, 5)
+    flaky = Flaky()
+    inner = [pc.gen_atom(rng, True), flaky, pc.gen_atom(rng, True)]
+    remove = lambda: inner.remove(flaky)
+    path = [inner]
+    cur = inner
+    for _ in range(depth):
+        k = rng.choice(kinds)
+        key = rng.choice(["k", 1, (2, 3), None])
+        sib = pc.gen_value(rng, 1)
+        while pc.has_factory(sib) or has_slice_keyword(sib) or pc.nan_keys_repeat(sib):     # the known findings are not the subject here
+            sib = pc.gen_value(rng, 1)
+        if k == "list":
+            new = [sib, cur]
+        elif k == "tuple":
+            new = (cur, sib)
+        elif k == "deque":
+            new = collections.deque([cur, sib])
+        elif k == "dict":
+            new = {key: cur, "z": sib}
+        elif k == "OrderedDict":
+            new = collections.OrderedDict([("a", sib), (key, cur)])
+        elif k == "defaultdict":
+            new = collections.defaultdict(None, {key: cur})
+        elif k == "Counter":
+            new = collections.Counter()
+            new[key] = cur
+        else:
+            new = collections.ChainMap({key: cur}, {"y": sib})
+        path.append(new)
+        cur = new
+    return cur, path, remove
+
+
+def deep_list(depth):
+    levels = []
+    x = [1, "leaf"]
+    levels.append(x)
+    for i in range(depth):
+        x = [i, x]
+        levels.append(x)
+    return x, levels
+
+
+def histories(chk, n):
+    """the property after a failed call: values that were being printed when a print failed, and models, still
+    print as in a fresh state and round-trip"""
+    hy = pc.hy_mod()
+    import sys
+    import hy.core.hy_repr as hr
+
+    def judge(kind, step, x, desc):
+        chk.count("history:" + kind)
+        text = None
+        try:
+            text = hy.repr(x)
+            ok = pc.canon(pc.read_eval(text)) == pc.canon(x)
+            obs = text
+        except Exception as e:
+            ok, obs = False, "%s: %s (printed %r)" % (type(e).__name__, str(e)[:80], text)
+        chk.case("H%s:%s:%s" % (kind, step, text), nontrivial=True,
+                 sample={"history": desc[:140], "later print": str(text)[:80]} if step == 0 and len(chk.samples) < 11 else None)
+        if not ok:
+            chk.fail("roundtrip-after-failed-print",
+                     {"history": desc, "later_value": repr(x)[:300], "state": {"seen": len(hr._seen), "quoting": hr._quoting}},
+                     obs[:300], "the printed text of the value, as from a fresh interpreter, reading back to the value",
+                     "run the history in one interpreter: first call raises, the later hy.repr(value) must round-trip")
+        return ok
+
+    def judge_model(step, desc):
+        m = hy.models.Expression([hy.models.Symbol("a"), hy.models.Integer(1)])
+        chk.count("history:model-after-fault")
+        text = hy.repr(m)
+        chk.case("HM:%d:%s" % (step, text), nontrivial=True)
+        if text != "'(a 1)":
+            chk.fail("roundtrip-after-failed-print", {"history": desc, "later_value": "hy.models.Expression (a 1)",
+                                                      "state": {"seen": len(hr._seen), "quoting": hr._quoting}},
+                     text, "'(a 1)", "a model printed after a failed print of a model keeps its leading quote")
+
+    try:
+        for i in range(n):
+            root, path, remove = gen_history(chk.rng)
+            desc = "hy.repr raises ValueError from an element's __repr__ inside %s" % " > ".join(
+                type(c).__name__ for c in reversed(path))
+            as_model = chk.rng.random() < 0.3
+            try:
+                hy.repr(hy.models.List([hy.models.Symbol("s"), root]) if as_model else root)
+                chk.fail("faulting-print-returned", {"history": desc}, "returned", "the ValueError propagates")
+                continue
+            except ValueError:
+                pass
+            except Exception as e:
+                chk.count("history:other-exception:" + type(e).__name__)
+            remove()
+            for j, c in enumerate(path):          # innermost first: every container that was on the stack
+                if not judge("element-raises", j, c, desc):
+                    break
+            judge_model(i, desc + (" (inside a model)" if as_model else ""))
+        # a RecursionError in the middle of a very deep value of documented types
+        for k in range(2 if n < 50 else 4):
+            depth = sys.getrecursionlimit() * 4
+            x, levels = deep_list(depth)
+            desc = "hy.repr raises RecursionError on a list nested %d deep" % depth
+            try:
+                hy.repr(x)
+                chk.count("history:deep-print-returned")
+            except RecursionError:
+                pass
+            levels[-1][1] = (1.5, None)
+            judge("recursion-error", 0, levels[3], desc)
+            judge("recursion-error", 1, levels[-1], desc)
+            judge("recursion-error", 2, {"k": collections.deque([levels[-1]])}, desc)
+            judge_model(1000 + k, desc)
+            del x, levels
+    finally:
+        leaked = (len(hr._seen), hr._quoting)
+        hr._seen.clear()
+        hr._quoting = False
+    chk.obligation("hy-repr's state is idle after the histories with failing prints", leaked == (0, False),
+                   "_seen holds %d ids, _quoting = %r" % leaked)
+
+
 # ------------------------------------------------------------------ the run
 
 FIXED = lambda hy: [
@@ -295,7 +435,7 @@ def run(chk):
     chk.matchers["c27_defaultdict_factory"] = m_defaultdict
     chk.matchers["c27_slice_keyword"] = m_slice_kw
     chk.matchers["c27_defaultdict_factory_and_slice_keyword"] = m_both
-    chk.prove("Props/C27.v", ["Props/C27.vo", "Print/Ser.vo", "Print/GenChecks.vo"], [print_tables.translate])
+    chk.prove("Props/C27.v", ["Props/C27.vo", "Print/Ser.vo", "Print/GenChecks.vo", "Print/ReprState.vo"], [print_tables.translate])
     thorough = chk.tier == "thorough"
     hy = pc.hy_mod()
     validate_facts(chk, chk.rng, 20000 if thorough else 2000)
@@ -304,7 +444,9 @@ def run(chk):
     chk.rule = ("values = fixed list (incl. the refutation witnesses) + seeded recursive generator over all documented types "
                 "(depth <= 3 quick, <= 5 thorough; strings over quotes, backslashes, controls, Latin-1, non-printables, astral, "
                 "surrogates; floats incl. random bit patterns, nan, inf, -0.0; ints to 10^40); graphs = random container trees "
-                "with back references to enclosing mutable containers; non-trivial = distinct printed text of a container or "
+                "with back references to enclosing mutable containers; histories = a print that fails part-way (an element whose "
+                "__repr__ raises inside 1-4 nested containers, also inside a model; a RecursionError on a list nested 4x the "
+                "recursion limit) followed by prints of every container that was on the stack and of a model; non-trivial = distinct printed text of a container or "
                 "of an atom needing escapes/special forms")
     vals = list(FIXED(hy))
     while len(vals) < n_values:
@@ -438,6 +580,7 @@ def run(chk):
     finally:
         import hy.core.hy_repr as hr
         hr._registry.pop(Sentinel, None)
-    # _seen must be empty again (C28 owns this; a leak would corrupt every later case here)
+    histories(chk, 400 if thorough else 60)
+    # _seen must be empty again (a leak would corrupt every later case)
     leaked = len(hr._seen)
     chk.obligation("hy-repr left _seen empty after all cases", leaked == 0, "%d ids left" % leaked)
